@@ -491,9 +491,88 @@ def const_replay(script):
     return lambda name, model, detail: {'script': script, 'search': True}
 
 
+# -- no recursion over the depth of the input (static) ----------------------------
+
+RECURSION_OK = {
+    # recursion over the nesting of the *tuple literal* passed to Node(...)
+    # by a mutator -- a constant of the calling code, not of the input
+    'Node.__ensure_is_node':
+    'depth = nesting of the tuple literal handed to Node() by the caller',
+}
+
+
+def run_no_recursion(eng, p):
+    """Functions of nodes.py / nodeio.py run in the main process on the whole
+    input: none may recurse (directly, or -- __str__/__repr__ -- through
+    str()/repr()/formatting of a child): a term nested deeper than the
+    interpreter's recursion limit would abort ddSMT."""
+    import ast
+    bad = []
+    for modname in ('ddsmt.nodes', 'ddsmt.nodeio'):
+        path = eng.source_path(modname)
+        tree = ast.parse(open(path).read())
+
+        def funcs(body, prefix=''):
+            for n in body:
+                if isinstance(n, ast.FunctionDef):
+                    yield prefix + n.name, n
+                elif isinstance(n, ast.ClassDef):
+                    yield from funcs(n.body, n.name + '.')
+
+        for qual, fn in funcs(tree.body):
+            name = fn.name
+            mangled = name
+            calls = set()
+            fmt = False
+            for n in ast.walk(fn):
+                if isinstance(n, ast.Call):
+                    f = n.func
+                    if isinstance(f, ast.Name):
+                        calls.add(f.id)
+                    elif isinstance(f, ast.Attribute):
+                        calls.add(f.attr)
+                    # map(str, ...) / map(repr, ...)
+                    if isinstance(f, ast.Name) and f.id == 'map':
+                        for a in n.args:
+                            if isinstance(a, ast.Name) and a.id in (
+                                    'str', 'repr'):
+                                calls.add(a.id)
+                elif isinstance(n, ast.FormattedValue):
+                    fmt = True
+            rec = mangled in calls
+            if name == '__str__' and ('str' in calls or 'format' in calls):
+                rec = True
+            if name == '__repr__' and 'repr' in calls:
+                rec = True
+            if name in ('__str__', '__repr__') and fmt:
+                # f'{child}' inside __str__/__repr__: only plain data may be
+                # formatted -- accept attribute accesses of the form x.data /
+                # x.id, refuse anything else
+                for n in ast.walk(fn):
+                    if isinstance(n, ast.FormattedValue) and not (
+                            isinstance(n.value, ast.Attribute) and
+                            n.value.attr in ('data', 'id')):
+                        rec = True
+            if rec and qual not in RECURSION_OK:
+                bad.append(f'{modname}.{qual}')
+    p.oblige('C04/nodes/no-recursion-over-the-depth-of-the-input', not bad,
+             info={'recursive': bad, 'signature': 'a function that runs on '
+                   'the whole input in the main process is recursive: terms '
+                   'nested deeper than the recursion limit abort ddSMT'})
+
+
 def native_checks(tier):
     L = 6 if tier == 'thorough' else 5
     return [
+        NativeCheck('C04/native/deep-nesting',
+                    ['ddsmt.nodes.Node.__str__', 'ddsmt.nodes.Node.__repr__',
+                     'ddsmt.smtlib.collect_information',
+                     'ddsmt.nodeio.parse_smtlib', 'ddsmt.nodeio.write_smtlib'],
+                    'harness/c04_deep.py',
+                    [6000 if tier == 'thorough' else 3000],
+                    bound='9 commands around a unary chain nested 3000 '
+                    '(6000) levels deep x 17 main-process operations',
+                    timeout=1200),
         NativeCheck('C04/native/parser', ['ddsmt.nodeio.parse_smtlib'],
                     'harness/parser_native.py', ['parse', L],
                     bound=f'exception freedom of the parser on all strings '
@@ -505,7 +584,13 @@ def native_checks(tier):
 def contracts(tier):
     from pyvc.interp import PyRaise  # noqa
     from . import c08, traversals, writers, rebuild
-    cs = list(c08.scanner_contracts(tier)) + traversals.contracts(tier) + \
+    cs = [Contract('C04/no-recursion', ['ddsmt.nodes', 'ddsmt.nodeio'],
+                   run_no_recursion,
+                   assumptions=['syntactic: direct recursion and recursion '
+                                'of __str__/__repr__ through str()/repr()/'
+                                'formatting; mutual recursion between '
+                                'different functions is not searched for'])]
+    cs += list(c08.scanner_contracts(tier)) + traversals.contracts(tier) + \
         writers.contracts(tier) + rebuild.contracts(tier) + \
         rebuild.reduplicate_contracts(tier)
     for th in ('arithmetic', 'bv', 'datatypes', 'fp', 'strings'):
